@@ -566,7 +566,18 @@ def check_axis(prog, rep):
     if txt.count("slice(None)") >= 2 and "range(s[len(l)])" in txt and "len(l) in a" in txt:
         rep.ok("R4-axis", g.qualname, "yields index tuples with range(shape[k]) on listed axes and slice(None) elsewhere")
     else:
-        rep.unrec("R4-axis", g.qualname, "slice generator not in the modelled form")
+        # a generator that matches the current depth against the HEAD of the axis tuple (len(l) == a[0], then a[1:]) visits the listed axes in ascending order only:
+        # without sorting the tuple first, axis=(1, 0) leaves axis 0 free and values move between slices
+        heads = [c for c in ast.walk(g.node) if isinstance(c, ast.Compare) and len(c.ops) == 1 and isinstance(c.ops[0], ast.Eq)
+                 and any(isinstance(x, ast.Subscript) and isinstance(x.slice, ast.Constant) and x.slice.value == 0 and isinstance(x.value, ast.Name) for x in [c.left, c.comparators[0]])
+                 and any(isinstance(x, ast.Call) and dump(x.func) == "len" for x in [c.left, c.comparators[0]])]
+        sorts = [c for c in ast.walk(g.node) if isinstance(c, ast.Call) and (dump(c.func) in ("sorted", "numpy.sort", "numpy.unique") or (isinstance(c.func, ast.Attribute) and c.func.attr == "sort"))]
+        if heads and not sorts and "in a" not in txt:
+            rep.violate("R4-axis", g.qualname, "the depth is matched against the head of the axis tuple (%s) and the tuple is never sorted: axes given in non-ascending order "
+                        "(e.g. (1, 0)) are not all fixed, so a shuffle permutes values across the requested slices" % dump(heads[0]), where(g, heads[0]),
+                        "membership test `len(l) in a` (or sort the axes first)", dump(heads[0]))
+        else:
+            rep.unrec("R4-axis", g.qualname, "slice generator not in the modelled form")
 
 
 def run(prog, rep, tier):
